@@ -2,6 +2,11 @@
 from odfdo import Document, Paragraph
 
 
+def _ser_ok(part):
+    from odfdo import Element
+    return Element.from_tag(part.serialize().split(b"?>", 1)[1].decode()).serialize() == part.root.serialize()
+
+
 def meta_clone(s, set_before, edit_clone, t, **kw):
     doc = Document("text")
     meta = doc.meta
@@ -15,7 +20,7 @@ def meta_clone(s, set_before, edit_clone, t, **kw):
     a, b = (c, meta) if edit_clone else (meta, c)
     before = b.root.serialize()
     a.title = "T" + t
-    indep = b.root.serialize() == before and a.title == "T" + t
+    indep = b.root.serialize() == before and a.title == "T" + t and _ser_ok(c) and _ser_ok(meta)
     return (not (born and same and indep)), f"equal at birth {born}; same behaviour after set_generator_default {same} (original {meta.generator!r}, clone {c.generator!r}); independent {indep}"
 
 
@@ -29,8 +34,8 @@ def content_clone(t, edit_clone, **kw):
     a, b = (c, content) if edit_clone else (content, c)
     before = b.root.serialize()
     a.body.append(Paragraph("y"))
-    indep = b.root.serialize() == before
-    return (not (born and indep)), f"equal at birth {born}; independent {indep}"
+    indep = b.root.serialize() == before and _ser_ok(c) and _ser_ok(content)
+    return (not (born and indep)), f"equal at birth {born}; independent and serialize() = tree in memory: {indep}"
 
 
 def _state(doc):
